@@ -327,3 +327,102 @@ Proof.
   split; [discriminate|]. split; [|left; reflexivity].
   intros l [<-|[<-|[]]]; split; cbn; intros [H|[]]; discriminate.
 Qed.
+
+(* ---------- the hunk search: first occurrence at or after the cursor ---------- *)
+Definition occurs_at (hay needle : list line) (i : nat) : Prop := exists t, skipn i hay = needle ++ t.
+
+Lemma prefix_eqb_iff needle : forall hay, prefix_eqb needle hay = true <-> exists t, hay = needle ++ t.
+Proof.
+  induction needle as [|x n IH]; intros hay; cbn [prefix_eqb].
+  - split; [intros _; exists hay; reflexivity|reflexivity].
+  - destruct hay as [|y h].
+    + split; [discriminate|intros [t E]; discriminate].
+    + rewrite andb_true_iff, lN_eqb_spec, IH. split.
+      * intros [-> [t ->]]. exists t. reflexivity.
+      * intros [t E]. cbn [app] in E. inversion E; subst. split; [reflexivity|exists t; reflexivity].
+Qed.
+
+Lemma find_sub_spec needle : forall hay idx pos, find_sub hay needle idx = Some pos ->
+  exists k, pos = (idx + k)%nat /\ occurs_at hay needle k /\ forall j, (j < k)%nat -> ~ occurs_at hay needle j.
+Proof.
+  induction hay as [|x r IH]; intros idx pos; cbn [find_sub].
+  - destruct (prefix_eqb needle []) eqn:P; [|discriminate]. intros E; inversion E; subst.
+    exists 0%nat. split; [lia|]. split; [apply prefix_eqb_iff in P; exact P|intros j Hj; lia].
+  - destruct (prefix_eqb needle (x :: r)) eqn:P.
+    + intros E; inversion E; subst. exists 0%nat. split; [lia|]. split; [apply prefix_eqb_iff in P; exact P|intros j Hj; lia].
+    + intros E. destruct (IH _ _ E) as [k [-> [O F]]]. exists (S k). split; [lia|]. split; [exact O|].
+      intros j Hj. destruct j as [|j].
+      * intros O0. apply prefix_eqb_iff in O0. cbn [skipn] in O0. congruence.
+      * apply F. lia.
+Qed.
+
+Lemma find_sub_none needle : forall hay idx, find_sub hay needle idx = None -> forall j, ~ occurs_at hay needle j.
+Proof.
+  induction hay as [|x r IH]; intros idx; cbn [find_sub].
+  - destruct (prefix_eqb needle []) eqn:P; [discriminate|]. intros _ j [t E].
+    assert (skipn j (@nil line) = []) by (destruct j; reflexivity).
+    assert (prefix_eqb needle [] = true) by (apply prefix_eqb_iff; exists t; congruence). congruence.
+  - destruct (prefix_eqb needle (x :: r)) eqn:P; [discriminate|]. intros E j. destruct j as [|j].
+    + intros O0. apply prefix_eqb_iff in O0. cbn [skipn] in O0. congruence.
+    + apply (IH _ E).
+Qed.
+
+Lemma skipn_add {A} s : forall (l : list A) k, skipn k (skipn s l) = skipn (s + k) l.
+Proof.
+  induction s as [|s IH]; intros l k; [reflexivity|]. destruct l as [|x r]; cbn [skipn plus].
+  - destruct k; reflexivity.
+  - apply IH.
+Qed.
+
+Lemma occurs_skip hay needle s k : occurs_at (skipn s hay) needle k <-> occurs_at hay needle (s + k).
+Proof. unfold occurs_at. rewrite skipn_add. reflexivity. Qed.
+
+Theorem find_from_first hay needle cur pos : find_from hay needle cur = Some pos ->
+  (cur <= pos)%nat /\ occurs_at hay needle pos /\ forall i, (cur <= i < pos)%nat -> ~ occurs_at hay needle i.
+Proof.
+  unfold find_from. destruct (Nat.leb cur (List.length hay)); [|discriminate]. intros E.
+  apply find_sub_spec in E. destruct E as [k [-> [O F]]]. split; [lia|]. split; [apply occurs_skip; exact O|].
+  intros i Hi. replace i with (cur + (i - cur))%nat by lia. rewrite <- occurs_skip. apply F. lia.
+Qed.
+
+Theorem find_from_none hay needle cur : (cur <= List.length hay)%nat -> find_from hay needle cur = None ->
+  forall i, (cur <= i)%nat -> ~ occurs_at hay needle i.
+Proof.
+  unfold find_from. intros LE. apply Nat.leb_le in LE. rewrite LE. intros E i Hi.
+  replace i with (cur + (i - cur))%nat by lia. rewrite <- occurs_skip. eapply find_sub_none. exact E.
+Qed.
+
+(* one hunk with context replaces exactly the first occurrence of its `before` lines at or after the
+   cursor, and moves the cursor behind the inserted lines; a hunk without context appends *)
+Theorem hunk_step h r ls cur : h_before h <> [] ->
+  forall res, apply_hunks_lines ls cur (h :: r) = Some res ->
+  exists pre post, ls = pre ++ h_before h ++ post /\ (cur <= List.length pre)%nat /\
+    (forall i, (cur <= i < List.length pre)%nat -> ~ occurs_at ls (h_before h) i) /\
+    apply_hunks_lines (pre ++ h_after h ++ post) (List.length pre + List.length (h_after h)) r = Some res.
+Proof.
+  intros NE res. cbn [apply_hunks_lines]. destruct (h_before h) as [|b0 bs] eqn:B; [congruence|].
+  destruct (find_from ls (b0 :: bs) cur) as [pos|] eqn:FF; [|discriminate].
+  destruct (find_from_first _ _ _ _ FF) as [LE [[t OC] FIRST]].
+  intros H. exists (firstn pos ls), t.
+  assert (LP : (pos <= List.length ls)%nat).
+  { destruct (Nat.le_gt_cases pos (List.length ls)) as [A|A]; [exact A|]. rewrite skipn_all2 in OC by lia. discriminate. }
+  assert (LEN : List.length (firstn pos ls) = pos) by (rewrite firstn_length; lia).
+  assert (DEC : ls = firstn pos ls ++ (b0 :: bs) ++ t) by (rewrite <- OC; symmetry; apply firstn_skipn).
+  split; [exact DEC|]. rewrite LEN. split; [exact LE|]. split; [exact FIRST|].
+  assert (SK : skipn (pos + List.length (b0 :: bs)) ls = t).
+  { rewrite <- skipn_add, OC. rewrite skipn_app, skipn_all, Nat.sub_diag. reflexivity. }
+  rewrite SK in H. exact H.
+Qed.
+
+Theorem hunk_append h r ls cur : h_before h = [] ->
+  apply_hunks_lines ls cur (h :: r) = apply_hunks_lines (ls ++ h_after h) (List.length (ls ++ h_after h)) r.
+Proof. intros B. cbn [apply_hunks_lines]. rewrite B. reflexivity. Qed.
+
+(* a hunk that fails leaves no partial text: the whole update is refused *)
+Theorem hunk_missing_context_fails h r ls cur : h_before h <> [] -> (cur <= List.length ls)%nat ->
+  (forall i, (cur <= i)%nat -> ~ occurs_at ls (h_before h) i) -> apply_hunks_lines ls cur (h :: r) = None.
+Proof.
+  intros NE LE NO. cbn [apply_hunks_lines]. destruct (h_before h) as [|b0 bs] eqn:B; [congruence|].
+  destruct (find_from ls (b0 :: bs) cur) as [pos|] eqn:FF; [|reflexivity].
+  destruct (find_from_first _ _ _ _ FF) as [L [OC _]]. exfalso. exact (NO pos L OC).
+Qed.
